@@ -637,7 +637,7 @@ func C11(c *core.Ctx) {
 	if c.Replay != "" {
 		replayUnsupported(c)
 	}
-	keep := 12
+	keep := 24
 	if c.Thorough() {
 		keep = 1
 	}
@@ -668,6 +668,13 @@ func C11(c *core.Ctx) {
 			p = append(p, "left in the output: "+d)
 		}
 		p = append(p, r.obs.Problems...)
+		// comments around a converter interface that are not part of it survive: the comment after its
+		// closing brace (a trailing comment of one of its METHODS goes away with the method)
+		for _, it := range r.l.Layout.Items {
+			if it.K == "intf" && (it.Named || it.Marked) && it.After && !strings.Contains(r.files["p/setup.gen.go"], "tokAF"+it.ID) {
+				p = append(p, "the comment after the closing brace of "+layIntfName(&it)+" is lost")
+			}
+		}
 		if r.l.Layout.Imports == "mixed" && !strings.Contains(r.files["p/setup.gen.go"], `_ "laym/side"`) {
 			p = append(p, "the blank import was dropped")
 		}
